@@ -88,6 +88,12 @@ def run_case(c):
         out["cw"] = {"z": fl(z), "w": [fl(v) for v in w]}
     except Exception as e:
         out["cw"] = {"error": err_name(e), "msg": str(e)[:200]}
+    # ---- one pass, the same schedule as an integer-dtype array (what `np.array(counts)` gives a user) ----
+    try:
+        z, w = compute_weights(np.array(ls), np.array(ns, dtype=np.int64), expectation=mode)
+        out["cwn"] = {"z": fl(z), "w": [fl(v) for v in w]}
+    except Exception as e:
+        out["cwn"] = {"error": err_name(e), "msg": str(e)[:200]}
     # ---- one pass, integer nlive (schedule n..n, n, n-1, .., 1) --------------------------
     if c.get("int_nlive"):
         try:
